@@ -100,6 +100,36 @@ fn ka1_alloc_overflow_and_null() {
     kani::cover!(len == usize::MAX);
 }
 
+/// The same for the default (Rust) allocator, which has a fast path of its own: a request the C-style (items, size)
+/// interface cannot express is refused, not truncated to its low 32 bits (the caller would be handed a block smaller than
+/// it asked for).  Sizes of that order come from the gz layer (gzbuffer).
+pub(crate) unsafe extern "C" fn stub_zalloc_rust_unreachable(_o: *mut c_void, _count: core::ffi::c_uint, _size: core::ffi::c_uint) -> *mut c_void {
+    panic!("the allocator was asked for a block although the request does not fit its interface")
+}
+
+#[cfg(feature = "rust-allocator")]
+#[kani::proof]
+#[kani::unwind(4)]
+#[kani::stub(core::fmt::write, stub_fmt_write)]
+#[kani::stub(core::panicking::panic_nounwind, stub_pn)]
+#[kani::stub(core::panicking::panic_nounwind_fmt, stub_pnf)]
+#[kani::stub(crate::allocate::zalloc_rust, stub_zalloc_rust_unreachable)]
+#[kani::stub(crate::allocate::zalloc_rust_calloc, stub_zalloc_rust_unreachable)]
+fn ka1_default_allocator_refuses_oversized_requests() {
+    let len: usize = kani::any();
+    kani::assume(len > u32::MAX as usize);
+    kani::assume(len <= isize::MAX as usize - 64);
+    // (low 32 bits zero: the truncated request would be a zero-size one, which the allocator answers with null anyway)
+    kani::assume(len as u32 != 0);
+    let mut size_slot: usize = 0;
+    let a = Allocator { zalloc: RUST.zalloc, zfree: RUST.zfree, opaque: &mut size_slot as *mut usize as *mut c_void, _marker: PhantomData };
+    let r = a.allocate_slice_raw::<u8>(len);
+    assert!(r.is_none(), "a block of the requested size cannot be asked for: no block is handed out");
+    let z = a.allocate_zeroed_buffer(len);
+    assert!(z.is_none());
+    kani::cover!(len == (1usize << 32) + 64);
+}
+
 /// The two halves of the allocator shim choose their strategy independently (`allocate_layout` from `zalloc`, `deallocate`
 /// from `zfree`), so every stream must end up with a matched pair: whatever subset of callbacks the caller supplied before
 /// init, after the default-allocator fallback both are the caller's (untouched, same opaque) or both are the default.
